@@ -1036,6 +1036,32 @@ func (d *protoDom) call(st *sState, call *ssa.Call, name string, args []sVal) (b
 		return true, nil
 	case "sm2/internal/fiat.sm2ToMontgomery", "sm2/internal/fiat.sm2ScalarToMontgomery":
 		in, ok := args[1].(sPtr)
+		if ok && (st.limbTerm == nil || st.limbTerm[in.id] == nil) {
+			// four words read from one 32-byte string, least significant limb first
+			if arr, isArr := st.heap[in.id].(*hArray); isArr && len(arr.elems) == 4 {
+				var X *pt
+				good := true
+				for j := 0; j < 4 && good; j++ {
+					pi, isInt := arr.elems[j].(pInt)
+					if !isInt || pi.t.op != "val" || len(pi.t.args) != 1 {
+						good = false
+						break
+					}
+					sb := pi.t.args[0]
+					if sb.op != "sub" || sb.n == nil || sb.k != 24-8*j || int(sb.n.Int64()) != 32-8*j || (X != nil && sb.args[0].String() != X.String()) {
+						good = false
+						break
+					}
+					X = sb.args[0]
+				}
+				if good && X != nil && d.lenOf(st, X) == 32 {
+					if st.limbTerm == nil {
+						st.limbTerm = map[int]*pt{}
+					}
+					st.limbTerm[in.id] = pVal(X)
+				}
+			}
+		}
 		if !ok || st.limbTerm == nil || st.limbTerm[in.id] == nil {
 			return fail("ToMontgomery of limbs with no known value")
 		}
@@ -1052,6 +1078,67 @@ func (d *protoDom) call(st *sState, call *ssa.Call, name string, args []sVal) (b
 		default:
 			return fail("ToMontgomery into an unknown destination")
 		}
+		set(sNil{})
+		return true, nil
+	case "(encoding/binary.bigEndian).Uint64", "(encoding/binary.bigEndian).Uint32", "(encoding/binary.bigEndian).Uint16":
+		// a big-endian word of a byte string: the value of that part of the string
+		k := map[string]int{"(encoding/binary.bigEndian).Uint64": 8, "(encoding/binary.bigEndian).Uint32": 4, "(encoding/binary.bigEndian).Uint16": 2}[name]
+		b, ok := bytesArg(len(args) - 1)
+		if !ok {
+			return fail("%s of an unknown byte string", name)
+		}
+		if l := d.lenOf(st, b); l < k {
+			if l >= 0 || !proveP(st.pfacts, pOp("len", b), token.GEQ, pC(int64(k))) {
+				return fail("%s of a string not known to have %d bytes", name, k)
+			}
+		}
+		if d.lenOf(st, b) == k {
+			set(pInt{pVal(b)})
+		} else {
+			set(pInt{pVal(pSub(b, 0, k))})
+		}
+		return true, nil
+	case "(encoding/binary.bigEndian).PutUint64", "(encoding/binary.bigEndian).PutUint32":
+		k := map[string]int{"(encoding/binary.bigEndian).PutUint64": 8, "(encoding/binary.bigEndian).PutUint32": 4}[name]
+		na := len(args)
+		b, ok := args[na-2].(sSlice)
+		v, okv := d.intArg(args[na-1])
+		if !ok || !okv || b.hi-b.lo < k {
+			return fail("%s into an unknown buffer", name)
+		}
+		arr := st.heap[b.id].(*hArray)
+		d.writeBytes(st, arr, b.lo, pBe(v, k), k)
+		set(sNil{})
+		return true, nil
+	case "sm2/internal/fiat.sm2FromMontgomery", "sm2/internal/fiat.sm2ScalarFromMontgomery":
+		// out = the limbs of the element's value: limb j is the value of bytes [24-8j, 32-8j) of its 32-byte encoding
+		var t *pt
+		switch in := args[1].(type) {
+		case pObj:
+			if h := d.obj(st, in); h != nil && h.t != nil {
+				t = h.t
+			}
+		case sPtr:
+			if st.limbTerm != nil {
+				t = st.limbTerm[in.id]
+			}
+		}
+		out, ok := args[0].(sPtr)
+		if t == nil || !ok {
+			return fail("FromMontgomery of an unknown element")
+		}
+		arr, ok := st.heap[out.id].(*hArray)
+		if !ok || len(arr.elems) != 4 {
+			return fail("FromMontgomery into an unknown destination")
+		}
+		enc := pBe(t, 32)
+		for j := 0; j < 4; j++ {
+			arr.elems[j] = pInt{pVal(pSub(enc, 24-8*j, 32-8*j))}
+		}
+		if st.limbTerm == nil {
+			st.limbTerm = map[int]*pt{}
+		}
+		st.limbTerm[out.id] = t
 		set(sNil{})
 		return true, nil
 	case "encoding/binary.bigEndian.PutUint16", "(encoding/binary.bigEndian).PutUint16":
